@@ -83,8 +83,11 @@ type Case struct {
 	Name   string `json:"name,omitempty"`
 	Hooked bool   `json:"hooked"`
 	Sched  bool   `json:"sched,omitempty"` // suite "sched": the watcher's timer is observed and drives the scans
-	Cfg    Cfg    `json:"cfg"`
-	Ops    []Op   `json:"ops"`
+	// the real-time run of the watcher's own goroutine (realtime.go): no operations, the schedule is fixed
+	Realtime bool             `json:"realtime,omitempty"`
+	Runs     []map[string]any `json:"runs,omitempty"`
+	Cfg      Cfg              `json:"cfg"`
+	Ops      []Op             `json:"ops"`
 }
 
 // ---------------------------------------------------------------- plumbing
@@ -285,7 +288,12 @@ func param(name string, v any) stream_types.ProcessorParam {
 	return stream_types.ProcessorParam{Name: name, Value: kv.GetParamValue()}
 }
 
-func newWorld(cfg Cfg, hooked bool) *world {
+func newWorld(cfg Cfg, hooked bool) *world { return newWorldOpt(cfg, hooked, false) }
+
+// newWorldOpt: realtime = the process clock is the real clock and the
+// process-wide context is alive, so the watcher's own goroutine (manageTTLs,
+// real timer) runs by itself; the processing loop stays under the harness.
+func newWorldOpt(cfg Cfg, hooked bool, realtime bool) *world {
 	w := &world{cfg: cfg, hooked: hooked, reqs: map[int]*reqRun{}, gateOpen: true,
 		enq: make(chan string, 64), removed: make(chan string, 64),
 		tickEv: make(chan tickEvent), tickAns: make(chan bool), tickGo: make(chan struct{}),
@@ -293,8 +301,15 @@ func newWorld(cfg Cfg, hooked bool) *world {
 	w.gateCond = sync.NewCond(&w.gateMu)
 	w.loopCh = make(chan time.Time)
 	cm := context_manager.Get()
-	cm.SetMockClock()
-	w.mock = cm.GetMockClock()
+	var clk clock.Clock
+	if realtime {
+		cm.SetRealClock()
+		clk = cm.GetClock()
+	} else {
+		cm.SetMockClock()
+		w.mock = cm.GetMockClock()
+		clk = w.mock
+	}
 	worldMu.Lock()
 	theWorld = w
 	worldMu.Unlock()
@@ -314,7 +329,7 @@ func newWorld(cfg Cfg, hooked bool) *world {
 	}
 	md := &stream_types.ProcessorMetaData{
 		Name:         "c06",
-		SharedMemory: &shm{SharedStateI: mem.WithClock(w.mock), w: w},
+		SharedMemory: &shm{SharedStateI: mem.WithClock(clk), w: w},
 		Clock:        loopClock{w.loopCh}, // the 100 ms loop never fires by itself; Tick() runs its body
 		Resources:    &resources{w: w},
 		Parameters: map[string]stream_types.ProcessorParam{
@@ -337,11 +352,14 @@ func newWorld(cfg Cfg, hooked bool) *world {
 	}
 	w.h = h
 	w.shim, _ = any(h).(schedShim)
-	w.t0 = w.mock.Now()
+	w.t0 = clk.Now()
+	if realtime {
+		return w
+	}
 	// The watcher's own goroutine (real-time timer) must not scan behind the
 	// harness's back: the process-wide context is cancelled, so it leaves at its
 	// first select; wait for that before the clock is moved.
-	waitGone("created by lunar/engine/streams/processors/queue.NewRequestsWatcher")
+	waitGone(watcherGoroutine)
 	return w
 }
 
@@ -359,6 +377,8 @@ func (w *world) close() {
 }
 
 const waitLimit = 5 * time.Second
+
+const watcherGoroutine = "created by lunar/engine/streams/processors/queue.NewRequestsWatcher"
 
 func fatal(format string, a ...any) {
 	fmt.Fprintf(os.Stderr, "c06 harness: "+format+"\n", a...)
@@ -656,10 +676,15 @@ func (w *world) waiting() int {
 	return n
 }
 
+// deadCtx is the process-wide context of every case on the mock clock: cancelled
+// from the start, so that the goroutines a processor starts leave at once.
+var deadCtx context.Context
+
 func init() {
 	os.Setenv("LUNAR_SPOE_PROCESSING_TIMEOUT_SEC", "100000")
 	ctx, cancel := context.WithCancel(context.Background())
 	cancel()
+	deadCtx = ctx
 	context_manager.Get().WithContext(ctx)
 	verifhook.SetYield(yieldHandler)
 }
